@@ -1630,6 +1630,7 @@ impl Shard {
             w: Value,
             sent: Vec<u8>,
             alive: bool,
+            spelling: String,
         }
         let mut ms: Vec<Member> = vec![];
         for j in 0..k {
@@ -1649,7 +1650,8 @@ impl Shard {
             }
             let mut w = self.wit(&case, &built);
             w["herd"] = json!({"round": round, "member": j, "size": k});
-            ms.push(Member { conn, case, built, w, sent: vec![], alive: true });
+            let spelling = format!("connection-{}+upgrade-{}", conn_sp.tag(), upg_sp.tag());
+            ms.push(Member { conn, case, built, w, sent: vec![], alive: true, spelling });
         }
         // all handshakes are in flight; now collect the answers
         for m in ms.iter_mut() {
@@ -1666,7 +1668,7 @@ impl Shard {
                 Ok(resp) => {
                     self.rep.count("handshakes_refused", 1);
                     self.rep.violate(
-                        "C20:complete-handshake-refused:concurrent",
+                        format!("C20:complete-handshake-refused:concurrent:{}", m.spelling),
                         json!({"case": m.w, "status": resp.status, "body": esc(&resp.body)}),
                     );
                     m.alive = false;
